@@ -80,10 +80,10 @@ def evaluate(ids):
             shutil.rmtree(scratch, ignore_errors=True)
         fired = {}
         lost_ = pipeline.hint_lost_fns(res)
-        all_lost_ = all(f["fn"] in lost_ for fl in res.get("failures", {}).values() for f in fl)
+        all_lost_ = all(pipeline.explained_by_lost_hint(res, f) for fl in res.get("failures", {}).values() for f in fl)
         for prof, fl in res.get("failures", {}).items():
             for f in fl:
-                if f["fn"] in lost_ and all_lost_:
+                if pipeline.explained_by_lost_hint(res, f):
                     continue   # check.py reports UNDECIDED when every failed obligation sits in a function that lost a hint anchor
                 for p in f["props"]:
                     fired.setdefault(p, set()).add("%s@%s" % (f["name"], f["fn"]))
